@@ -57,7 +57,7 @@ def make_report(rng, family=None):
         if rng.random() < 0.5:
             parts.reverse()
             tk.reverse()
-        text = "<%s|%s>" % (rng.choice(["Idle", "Run", "Hold"]), "|".join(parts))
+        text = "<%s|%s>" % (rng.choice(["Idle", "Run", "Hold", "Alarm", "Door:1", "Check", "Home", "Jog", "Sleep", "Error"]), "|".join(parts))
         toks, grbl = tk, True
     else:
         pos = [val(rng) for _ in range(3)]
